@@ -476,11 +476,32 @@ func genWellFormedLine(r *rand.Rand, names []string, tagP float64) string {
 	return nameSide + ":" + strings.Join(ss, ":")
 }
 
+// genRefusedLine: a line with a sample the exporter REFUSES (negative / NaN / -Inf counter increment, also through a
+// negative sampling rate), usually with tags of its own
+func genRefusedLine(r *rand.Rand, names []string) string {
+	l := genWellFormedLine(r, names, 0.9)
+	for _, v := range []string{"1", "2", "0.5", "100", "3", "250", "7"} {
+		l = strings.Replace(l, ":"+v+"|c", ":"+pick(r, []string{"-1", "NaN", "-0.5", "-inf"})+"|c", 1)
+	}
+	if !strings.Contains(l, "|c") {
+		i := strings.IndexAny(l, ":")
+		tagsOf := ""
+		if k := strings.Index(l, "|#"); k >= 0 {
+			tagsOf = l[k:]
+		}
+		if i > 0 {
+			l = l[:i] + ":" + pick(r, []string{"-1", "NaN", "-2.5", "1|c|@-1"}) + "|c" + tagsOf
+			l = strings.Replace(l, "|c|@-1|c", "|c|@-1", 1)
+		}
+	}
+	return l
+}
+
 func init() {
 	all := pipeCfgOpts{true, true, true, true, true, true, true, true, true}
 	rule := "a history = a generated mapping configuration (0-4 glob/regex rules over components {a,b,c,*} with labels/$n templates, honor_labels, scale, ttl, help, drop, match_metric_type, observer_type, buckets), then lines, clock advances, sweeps, reloads and scrapes through the real Listen loop (mock clock); the scrape result (families, types, help, label sets, values as bit patterns, bucket counts, conflict/error/drop counters) is compared with the model. "
 
-	c01 := &Component{Name: "pipe_c01", Exec: execPipe, Rule: rule + "C01 stream: 8-25 well-formed lines of all five stat types, four tag styles, sampling, multi-sample and extended-aggregation, names drawn so that rules match; scrape at the end and after a third of the lines. Non-trivial: >=2 distinct series and at least one mapped line; distinct by op text."}
+	c01 := &Component{Name: "pipe_c01", Exec: execPipe, Rule: rule + "C01 stream: 8-25 well-formed lines of all five stat types, four tag styles, sampling, multi-sample and extended-aggregation, names drawn so that rules match, one line in twelve with a counter increment the exporter refuses (negative, NaN); scrape at the end and after a third of the lines. Non-trivial: >=2 distinct series and at least one mapped line; distinct by op text."}
 	c01.Gen = func(r *rand.Rand, tier string, emit Emit) {
 		n := 3000
 		if tier == "thorough" {
@@ -495,7 +516,11 @@ func init() {
 			h.load(cfg)
 			k := 8 + r.Intn(18)
 			for j := 0; j < k; j++ {
-				h.line(genWellFormedLine(r, plNames, 0.4))
+				if r.Intn(12) == 0 { // a refused increment among the accepted samples: it leaves no trace but the error counter
+					h.line(genRefusedLine(r, plNames))
+				} else {
+					h.line(genWellFormedLine(r, plNames, 0.4))
+				}
 				if r.Intn(3) == 0 {
 					h.scrape()
 				}
